@@ -38,6 +38,7 @@ type coseCtx struct {
 	scheme string
 	st     time.Time
 	other  *identity
+	twin   *identity // another identity whose key has the same type and size
 }
 
 type coseMut struct {
@@ -305,6 +306,35 @@ func coseMutations() []coseMut {
 	add("ext:x5chain-in-protected-leaf-of-other-identity", func(b *coseBuild, c *coseCtx) {
 		csetP(b, int64(33), x5chainOf(append([][]byte{c.other.chain[0].Raw}, ders(c.id.chain[1:])...)))
 	})
+	// the envelope is signed by another identity's key, whose chain sits among the signed headers; the chain the envelope names
+	// (the unprotected one) is this identity's, whose key signed nothing
+	for _, w := range []string{"other", "twin"} {
+		w := w
+		pick := func(c *coseCtx) *identity {
+			if w == "twin" {
+				return c.twin
+			}
+			return c.other
+		}
+		add("ext:x5chain-in-protected-of-the-signing-key-unprotected-of-another-"+w, func(b *coseBuild, c *coseCtx) {
+			o := pick(c)
+			csetP(b, int64(33), x5chainOf(ders(o.chain)))
+			b.SignKey = getKey(o.keyID)
+			if a, ok := coseAlgID[o.alg]; ok {
+				csetP(b, int64(1), cInt(a))
+			}
+		})
+		add("ext:x5chain-in-protected-leaf-of-the-signing-key-unprotected-of-another-"+w, func(b *coseBuild, c *coseCtx) {
+			o := pick(c)
+			csetP(b, int64(33), x5chainOf([][]byte{o.chain[0].Raw}))
+			b.SignKey = getKey(o.keyID)
+			if a, ok := coseAlgID[o.alg]; ok {
+				csetP(b, int64(1), cInt(a))
+			}
+		})
+		add("x5c:chain-of-a-"+w+"-key-that-signed-nothing", func(b *coseBuild, c *coseCtx) { csetU(b, int64(33), x5chainOf(ders(pick(c).chain))) })
+		add("sig:by-the-"+w+"-key", func(b *coseBuild, c *coseCtx) { b.SignKey = getKey(pick(c).keyID) })
+	}
 	add("ext:near-miss-labels", func(b *coseBuild, c *coseCtx) {
 		csetP(b, "io.cncf.notary.expiry ", cTstr("x"))
 		csetP(b, "IO.CNCF.NOTARY.SIGNINGSCHEME", cTstr("y"))
@@ -479,7 +509,12 @@ type coseJob struct {
 
 func runCoseJob(r *Runner, j coseJob, idx int) {
 	b, built := coseJobBuild(j)
-	submitCose(r, b, built, j.label, fmt.Sprintf("%s-%d", j.label, idx), nil)
+	var tags []string
+	if len(j.muts) == 0 && (strings.HasPrefix(j.keyID, "ec256") || strings.HasPrefix(j.keyID, "ec384") || strings.HasPrefix(j.keyID, "ec521") ||
+		strings.HasPrefix(j.keyID, "rsa2048") || strings.HasPrefix(j.keyID, "rsa3072") || strings.HasPrefix(j.keyID, "rsa4096")) {
+		tags = []string{"declared-conformant"}
+	}
+	submitCose(r, b, built, j.label, fmt.Sprintf("%s-%d", j.label, idx), tags)
 }
 
 // coseJobBuild: the envelope a job describes
@@ -497,7 +532,11 @@ func coseJobBuild(j coseJob) (*coseBuild, *builtCOSE) {
 			otherKey = "rsa2048-1" // the odd sizes have one committed key each
 		}
 	}
-	ctx := &coseCtx{id: id, scheme: j.scheme, st: baseTime().Add(-time.Minute), other: getIdentity(otherKey, 2)}
+	twinKey := otherKey
+	if strings.HasPrefix(j.keyID, "ec") && strings.HasSuffix(j.keyID, "-0") {
+		twinKey = strings.TrimSuffix(j.keyID, "-0") + "-1"
+	}
+	ctx := &coseCtx{id: id, scheme: j.scheme, st: baseTime().Add(-time.Minute), other: getIdentity(otherKey, 2), twin: getIdentity(twinKey, 2)}
 	var exp *time.Time
 	if j.expiry {
 		t := ctx.st.Add(24 * time.Hour)
@@ -566,7 +605,7 @@ func submitCose(r *Runner, b *coseBuild, built *builtCOSE, class, id string, tag
 	if certs != nil {
 		chain = absChainWith(certs, dersI)
 	}
-	c.In = map[string]any{"env": env, "chain": chain, "rawEmpty": len(built.Bytes) == 0}
+	c.In = map[string]any{"env": env, "chain": chain, "rawEmpty": len(built.Bytes) == 0, "declaredConformant": hasTag(tags, "declared-conformant")}
 	impl["verify"] = readOutcome(e.Verify, dersI, goTok)
 	impl["content"] = readOutcome(e.Content, dersI, goTok)
 	again := readOutcome(e.Verify, dersI, goTok)
